@@ -107,7 +107,11 @@ def gen_project(rng, lang_mix=True):
 
 
 # ----------------------------------------------------------------------------- implementation side
-MSG = re.compile(r"Duplicate code \((\d+) lines, (\d+) occurrences\)(?:\. Also found in: (.*))?$")
+# the message must carry the block length, the occurrence count and the other locations; its wording is not the property's
+# business, so the three are read wherever they stand
+MSG_SPAN = re.compile(r"(\d+)\s+lines?\b")
+MSG_COUNT = re.compile(r"(\d+)\s+(?:occurrences?|times|places|copies)\b")
+MSG_REF = re.compile(r"([^\s,;()]+?):(\d+)-(\d+)")
 
 
 def normalise_range(path: Path, a: int, b: int):
@@ -141,17 +145,12 @@ def impl_case(args) -> dict:
             return out
         recs = []
         for v in vs:
-            m = MSG.match(v["message"])
-            if not m:
+            m1, m2 = MSG_SPAN.search(v["message"]), MSG_COUNT.search(v["message"])
+            if not m1 or not m2:
                 out["errors"].append("unparsable message: " + v["message"][:200])
                 continue
-            refs = []
-            for r in (m.group(3) or "").split(", "):
-                if r:
-                    p, rng_ = r.rsplit(":", 1)
-                    a, b = rng_.split("-")
-                    refs.append([Path(p).name, int(a), int(b)])
-            rec = {"file": Path(v["file_path"]).name, "line": v["line"], "span": int(m.group(1)), "count": int(m.group(2)), "refs": sorted(refs), "column": v["column"]}
+            refs = [[Path(p).name, int(a), int(b)] for p, a, b in MSG_REF.findall(v["message"])]
+            rec = {"file": Path(v["file_path"]).name, "line": v["line"], "span": int(m1.group(1)), "count": int(m2.group(1)), "refs": sorted(refs), "column": v["column"]}
             own = normalise_range(proj / rec["file"], rec["line"], rec["line"] + rec["span"] - 1)
             rec["text_ok"] = all(normalise_range(proj / rf, ra, rb) == own for rf, ra, rb in refs) and len(own) >= k
             recs.append(rec)
